@@ -160,28 +160,63 @@ impl<S: BlobStore> HuffmanBlobStore<S> {
     }
 }
 
+/// Frame tag: the payload is the record as given
+const HUFFMAN_FRAME_RAW: u8 = 0;
+/// Frame tag: the payload is Huffman-coded, preceded by the original length (u64 LE)
+const HUFFMAN_FRAME_CODED: u8 = 1;
+
+impl<S: BlobStore> HuffmanBlobStore<S> {
+    /// Wrap a record for the inner store so that `get` can tell coded from raw payloads
+    fn frame(tag: u8, original_len: usize, payload: &[u8]) -> Vec<u8> {
+        let mut framed = Vec::with_capacity(payload.len() + 9);
+        framed.push(tag);
+        if tag == HUFFMAN_FRAME_CODED {
+            framed.extend_from_slice(&(original_len as u64).to_le_bytes());
+        }
+        framed.extend_from_slice(payload);
+        framed
+    }
+
+    /// Split a framed record into (tag, original length, payload)
+    fn unframe(framed: &[u8]) -> Result<(u8, usize, &[u8])> {
+        match framed.first() {
+            Some(&HUFFMAN_FRAME_RAW) => Ok((HUFFMAN_FRAME_RAW, framed.len() - 1, &framed[1..])),
+            Some(&HUFFMAN_FRAME_CODED) if framed.len() >= 9 => {
+                let mut len_bytes = [0u8; 8];
+                len_bytes.copy_from_slice(&framed[1..9]);
+                Ok((HUFFMAN_FRAME_CODED, u64::from_le_bytes(len_bytes) as usize, &framed[9..]))
+            }
+            _ => Err(ZiporaError::invalid_data("corrupt Huffman blob frame")),
+        }
+    }
+}
+
 impl<S: BlobStore> BlobStore for HuffmanBlobStore<S> {
     fn get(&self, id: crate::RecordId) -> Result<Vec<u8>> {
-        // For now, delegate to inner store (would need metadata for decompression)
-        self.inner.get(id)
+        let framed = self.inner.get(id)?;
+        let (tag, original_len, payload) = Self::unframe(&framed)?;
+        if tag == HUFFMAN_FRAME_RAW {
+            return Ok(payload.to_vec());
+        }
+        let tree = self
+            .tree
+            .as_ref()
+            .ok_or_else(|| ZiporaError::invalid_data("Huffman tree not built"))?;
+        HuffmanDecoder::new(tree.clone()).decode(payload, original_len)
     }
 
     fn put(&mut self, data: &[u8]) -> Result<crate::RecordId> {
         if self.encoder.is_some() && !data.is_empty() {
-            match self.compress_data(data) {
-                Ok(compressed) => {
-                    let id = self.inner.put(&compressed)?;
-                    self.stats.blob_stats.put_count += 1;
-                    Ok(id)
-                }
-                Err(_) => {
-                    // Fall back to uncompressed
-                    self.inner.put(data)
-                }
+            if let Ok(compressed) = self.compress_data(data) {
+                let id = self
+                    .inner
+                    .put(&Self::frame(HUFFMAN_FRAME_CODED, data.len(), &compressed))?;
+                self.stats.blob_stats.put_count += 1;
+                return Ok(id);
             }
-        } else {
-            self.inner.put(data)
+            // symbols outside the trained alphabet: store the record as given
         }
+        self.inner.put(&Self::frame(HUFFMAN_FRAME_RAW, data.len(), data))
     }
 
     fn remove(&mut self, id: crate::RecordId) -> Result<()> {
@@ -193,7 +228,12 @@ impl<S: BlobStore> BlobStore for HuffmanBlobStore<S> {
     }
 
     fn size(&self, id: crate::RecordId) -> Result<Option<usize>> {
-        self.inner.size(id)
+        if !self.inner.contains(id) {
+            return Ok(None);
+        }
+        let framed = self.inner.get(id)?;
+        let (_, original_len, _) = Self::unframe(&framed)?;
+        Ok(Some(original_len))
     }
 
     fn len(&self) -> usize {
